@@ -296,6 +296,9 @@ func runJobs(l *symex.Loaded, hs []*harnessFile, jobs []job, workers int, cfg sy
 					if v, ok := j.Spec.Opts["unwind"]; ok {
 						c.Unwind, _ = strconv.Atoi(v)
 					}
+					if v, ok := j.Spec.Opts["preempt"]; ok {
+						c.PreemptBound, _ = strconv.Atoi(v)
+					}
 					if v, ok := j.Spec.Opts["maporders"]; ok {
 						c.MapOrders = v != "0"
 					}
@@ -394,6 +397,8 @@ func cmdCase(argv []string) int {
 	unwind := fs.Int("unwind", 80, "unwind bound")
 	out := fs.String("json", "", "write report JSON here")
 	variant := fs.String("variant", "", "source variant")
+	choices := fs.String("choices", "", "debug: replay this comma separated choice sequence")
+	preempt := fs.Int("preempt", -1, "preemption bound (-1: unbounded with sleep sets)")
 	fs.Parse(argv)
 	hs, err := loadHarnesses()
 	if err != nil {
@@ -427,6 +432,13 @@ func cmdCase(argv []string) int {
 	cfg.Trace = *trace
 	cfg.Solver = *solver
 	cfg.Unwind = *unwind
+	cfg.PreemptBound = *preempt
+	if *choices != "" {
+		for _, c := range strings.Split(*choices, ",") {
+			v, _ := strconv.Atoi(strings.TrimSpace(c))
+			cfg.ForceChoices = append(cfg.ForceChoices, v)
+		}
+	}
 	j := job{Spec: caseSpec{Entry: *entry, PkgDir: sel[0].PkgDir, Opts: map[string]string{}}, Args: a}
 	res := runJobs(l, sel, []job{j}, 1, cfg, true)
 	b, _ := json.MarshalIndent(res[0].Report, "", " ")
